@@ -31,7 +31,41 @@ CHECKS = {
  "C13": ("proptest stateful testing of QVectorBuilder / QVector over all 12 integer carrier types",
          "Generated push/extend/from_iter histories with values over the whole range of each integer type; len/is_empty/get/iterators compared with the low two bits of every value.",
          "Vec<u8> model", "3/C13"),
+ "C04": ("proptest API-totality testing: generated call lists with boundary-biased raw arguments on values obtained by every route, plus an enumerated method x boundary-argument sweep on empty/default/one-element values; crash isolation by the driver",
+         "Every safe method of every public type is called with arguments from the whole domain (0, boundaries +-1, n+-2, count+-2, usize::MAX-k, symbols 0..=255 and far above max) on values obtained by construction, Default, Clone, bincode round trip and conversions, in an optimised build and in a build with debug assertions and overflow checks. The model decides before each call whether a documented panic is permitted; any other panic, any Some for an invalid argument, and any process death (SIGSEGV, abort) is a violation. The enumerated part covers the finite sub-space method x 40 boundary arguments x 11 symbols on 738 empty/default/one-element values completely.",
+         "the models; size arguments (with_capacity, with_zeros, extend_with_zeros) <= 2^22; hostile serialized bytes out of scope; reads that stay inside an allocation are only visible through wrong answers", "3/C04"),
+ "C09": ("proptest differential testing of rank_prefetch vs rank vs model on all 8 quad aliases in three builds, with cross-build answer digests (feature prefetch on/off)",
+         "rank_prefetch must equal rank (and the model) for valid and invalid (symbol, position) pairs; the same generated cases run in builds with the crate feature prefetch on and off and their per-case answer digests must be identical; lengths are biased to several 2048-symbol sampling periods and to k*2048 +- 1 where off-by-one sample layouts surface.",
+         "the model; same seed => same cases in all builds (the build name is not mixed into the seed)", "3/C09"),
+ "C10": ("proptest differential testing of every *_unchecked method against its checked twin on model-valid arguments, two builds with cross-build digests",
+         "For every structure and every argument tuple of the plan that satisfies the documented precondition according to the model, the unchecked method must return the checked answer; run with and without debug assertions (a wrong debug_assert in an unchecked method is caught as a panic).",
+         "the model decides validity; unsafe calls are only made inside the documented preconditions", "3/C10"),
+ "C11": ("proptest round-trip testing: bincode serialize/deserialize, ==, byte-identical re-serialization, identical query digests",
+         "Every serializable type (60 tree instantiations, 6 bit structures, 3 quad structures; empty and default values included) is serialized, deserialized, compared with ==, re-serialized to identical bytes and queried over a full plan whose digest must equal the original's (itself compared with the model).",
+         "bincode 1.3.3 as used by the repository", "3/C11"),
+ "C12": ("proptest stateful testing of iterators: call histories over {next, next_back, len} against a VecDeque model",
+         "iter(), (&x).into_iter() and into_iter() of every tree kind are driven by generated histories, drained by a generated cyclic pattern and called 12 more times after exhaustion, with len() compared after every step; bit and quad iterators are checked for order, count, exact length and staying exhausted.",
+         "VecDeque model", "3/C12"),
+ "C14": ("proptest + counting global allocator: retained heap after construction against the stated space bound",
+         "One-sided bound check on generated sizes n = 2^k + {-1,0,1,2,2^(k-1)} (just above a power of two maximises retained Vec slack) for all construction paths; evidence reports how much of the bound is used (most non-trivial cases use 90-100 %).",
+         "live bytes requested from the allocator; bound constants stated in the evidence assumptions", "3/C14"),
+ "C15": ("proptest + counting allocator: Huffman trees against the entropy bound computed from the input and against the plain tree built in the same process",
+         "H0 is computed from the generated input; the Huffman tree's retained heap must stay below n*(H0+2)/8 (quad) or n*(H0+1)/8 (binary) times the C14 overhead factor plus per-level and table allowances, and below the plain tree's heap plus the same allowances.",
+         "level data is bounded through retained heap minus allowances (looser than the statement by the table allowance)", "3/C15"),
+ "C16": ("proptest + counting allocator: space_usage_byte() against live heap + size_of_val, with differential isolation of small components",
+         "For every SpaceUsage type the reported size must match the measured size within 2 % + constants; small components (prefetch support, rank/select support, select0 inventories) are isolated by subtracting the sizes of a second structure over identical content; KiB/MiB/GiB are checked as exact scalings.",
+         "live bytes requested from the allocator; tolerances stated in the evidence assumptions", "3/C16"),
+ "C17": ("exhaustive enumeration of the select-in-byte table cover + proptest over words, slices, shifts and byte strings against bit loops / stable sorts",
+         "select_in_word is checked on every byte value at every byte position with every in-byte rank in three contexts (complete cover of the 2048-entry table, every k for each word), then on generated words; select_in_word_u128, popcnt_wide<N>, msb (12 primitive types), stable_partition_of_4/2 (6 element types, every shift below the width) and text_remap are compared with obviously-correct references.",
+         "reference implementations in harness/src/props/c17.rs (bit loops, std stable sort, BTreeSet)", "3/C17"),
+ "C18": ("compile-time Send+Sync probe crate + proptest purity checks + std::thread::scope stress with per-thread answer digests",
+         "A separate crate asserting Send + Sync for every public query structure must compile. Sequentially, the bincode form must be byte-identical before and after query batches and a repeated batch must give the same digest. Concurrently, 2..16 threads released by a barrier query one shared value; every thread's digests (each answer also compared with the model) must equal the single-threaded digests. Interleavings are sampled by the OS scheduler, not enumerated: a race is detected only probabilistically.",
+         "OS scheduler chooses interleavings; the structures contain no synchronisation a schedule-controlling runner could drive", "3/C18"),
+ "C19": ("proptest metamorphic testing: construction paths, clones, neighbour sequences, element widths",
+         "All construction paths of a type are built from the same content and must give identical digests and (non-Huffman) compare equal; clones equal; the structure of a neighbour sequence (one element changed / appended / removed / two distinct adjacent swapped) must compare unequal for every path; trees are rebuilt in every wider element type against the same model.",
+         "the models; bit vectors from positions are compared on the prefix ending at the last one", "3/C19"),
 }
+
 
 def entry(pid):
     t, text, note, ref = CHECKS[pid]
